@@ -76,6 +76,11 @@ def gen(S, tier):
         # another exception rendered (on its own IO) before the one under test
         "prior_exc": None,
     }
+    if sc["ignore"] in ("some", "all") and c.chance(0.5):
+        # the same trace object, the same pattern, the other side of the debug boundary
+        sc["ignore2"], sc["same_trace"] = sc["ignore"], True
+        sc["verbosity"] = c.pick([1, 2, 4])
+        sc["verbosity2"] = c.pick([1, 2]) if sc["verbosity"] == 4 else 4
     if w.chance(0.3):
         sc["prior_exc"] = srcgen.gen_exc_spec(w)
         if w.chance(0.5):
@@ -331,7 +336,9 @@ def _run(sc, res, log, store, r):
         trace2 = trace if sc.get("same_trace") else ExceptionTrace(exc)
         if sc.get("same_trace"):
             res.probe("same_trace_object_rendered_again")
-        trace2.ignore_files_in({"none": "^/nowhere/", "some": "^" + re.escape(PREFIX + "vendor/"), "all": "^" + re.escape(PREFIX)}[k2])
+        if not (sc.get("same_trace") and k2 == sc["ignore"]):
+            # (the same object with the same pattern is simply rendered again, at another verbosity)
+            trace2.ignore_files_in({"none": "^/nowhere/", "some": "^" + re.escape(PREFIX + "vendor/"), "all": "^" + re.escape(PREFIX)}[k2])
         try:
             trace2.render(io2, False)
         except Exception as e:
